@@ -3,3 +3,5 @@ pub mod gen;
 pub mod langs;
 pub mod refs;
 pub mod report;
+pub mod rulegen;
+pub mod rules;
